@@ -161,12 +161,21 @@ func (e *explorer) record(x *ExecResult, prefix []int, used int) {
 			ch := x.Choices()
 			var desc []string
 			for r := 0; r < 5; r++ {
-				y := RunOnce(ch, true, e.body)
+				// four plain replays must reproduce the observations byte for byte; the
+				// fifth runs with call-site descriptions (which may appear in messages)
+				y := RunOnce(ch, r == 4, e.body)
 				w := e.oracle(y)
-				if w.Fail != v.Fail || fmt.Sprint(y.Log) != fmt.Sprint(x.Log) || fmt.Sprint(y.Choices()) != fmt.Sprint(ch) {
+				same := w.Key == v.Key && fmt.Sprint(y.Choices()) == fmt.Sprint(ch)
+				if r < 4 {
+					same = same && w.Fail == v.Fail && fmt.Sprint(y.Log) == fmt.Sprint(x.Log)
+				}
+				if !same {
 					toolFail(fmt.Sprintf("NONDETERMINISM replaying a violating schedule of %s:\nfirst:  %s\n        %v\nreplay: %s\n        %v", e.cfg.Name, v.Fail, x.Log, w.Fail, y.Log))
 				}
 				desc = y.Desc
+				if r == 4 {
+					v.Fail = w.Fail
+				}
 			}
 			st.Violations = append(st.Violations, &Violation{Key: key, Msg: v.Fail, Choices: ch, Log: x.Log, Schedule: desc, Preempt: used})
 		}
